@@ -15,7 +15,9 @@ EXTENDS Naturals, Sequences, FiniteSets, TLC, Json
 
 CONSTANTS
     SenderOps,    \* [sender -> sequence of ops]; op \in {"send", "try", "block0", "blockInf"}
-    FlusherOps,   \* [flusher -> "flush0" | "flushInf" | "cbPanic"]
+    FlusherOps,   \* [flusher -> "flush0" | "flushInf" | "flushTokio" | "cbPanic" | "cbPark"]
+                  \*  flushTokio: the async tokio::flush (no timeout); cbPark: a raw when_flushed whose
+                  \*  callback, when the receiver runs it, blocks until the environment lets it return
     Cap,          \* max_capacity (>= 1)
     MaxRetry,     \* Retry::max
     MaxFail,      \* budget of non-Ok processor outcomes in one behaviour
@@ -37,10 +39,12 @@ VARIABLES
     pendTake,     \* next_batch.watchers.on_take  : sequence of sender ids
     isOpen, isInBatch,
     (* the receiver's locals *)
-    rpc,          \* "lock" | "inflight" | "retryWait" | "idle" | "done" | "dead"
+    rpc,          \* "lock" | "inflight" | "retryWait" | "idle" | "inCb" | "done" | "dead"
     cur,          \* current_batch.channel
     curFlush,     \* current_batch.watchers.on_flush
     rem,          \* remainder waiting to be retried
+    rcont,        \* where the receiver continues after the callback it is blocked in: "lock"|"idle"|"done"
+    cbRest,       \* flush watchers still to be notified after that callback returns
     retries,      \* Retry::current
     retryDelay, idleDelay,   \* Delay::current, in abstract units (see DelayNext)
     (* sender / flusher threads *)
@@ -65,7 +69,7 @@ VARIABLES
     (* schedule history, hidden from the fingerprint by the VIEW *)
     hist
 
-state == <<pending, pendFlush, pendTake, isOpen, isInBatch, rpc, cur, curFlush, rem, retries,
+state == <<pending, pendFlush, pendTake, isOpen, isInBatch, rpc, cur, curFlush, rem, rcont, cbRest, retries,
            retryDelay, idleDelay, spc, sidx, sretry, sfired, fpc, ffired, senderAlive,
            mTrunc, mBlocked, mProcessed, mFailed, mPanicked, mRetry,
            accepted, status, taken, calls, fsnap, fret, sres, fails>>
@@ -94,6 +98,7 @@ Init ==
     /\ pending = <<>> /\ pendFlush = <<>> /\ pendTake = <<>>
     /\ isOpen = TRUE /\ isInBatch = FALSE
     /\ rpc = "lock" /\ cur = <<>> /\ curFlush = <<>> /\ rem = <<>> /\ retries = 0
+    /\ rcont = "" /\ cbRest = <<>>
     /\ retryDelay = 0 /\ idleDelay = 0
     /\ spc = [s \in Senders |-> IF Len(SenderOps[s]) = 0 THEN "done" ELSE "op"]
     /\ sidx = [s \in Senders |-> 1]
@@ -139,7 +144,7 @@ Send(s) ==
           /\ Log(s, "Send", [snap |-> Snap(pending', pendFlush, pendTake, isOpen, isInBatch),
                              trunc |-> mTrunc'])
     /\ NextOp(s)
-    /\ UNCHANGED <<pendFlush, pendTake, isOpen, isInBatch, rpc, cur, curFlush, rem, retries,
+    /\ UNCHANGED <<pendFlush, pendTake, isOpen, isInBatch, rpc, cur, curFlush, rem, rcont, cbRest, retries,
                    retryDelay, idleDelay, sretry, sfired, fpc, ffired, senderAlive, mBlocked,
                    mProcessed, mFailed, mPanicked, mRetry, taken, calls, fsnap, fret, fails>>
 
@@ -173,7 +178,7 @@ TrySend(s) ==
                          THEN mBlocked + 1 ELSE mBlocked
           /\ Log(s, "TrySend", [snap |-> Snap(pending', pendFlush, pendTake, isOpen, isInBatch),
                                 ok |-> ok, closed |-> closed])
-    /\ UNCHANGED <<pendFlush, pendTake, isOpen, isInBatch, rpc, cur, curFlush, rem, retries,
+    /\ UNCHANGED <<pendFlush, pendTake, isOpen, isInBatch, rpc, cur, curFlush, rem, rcont, cbRest, retries,
                    retryDelay, idleDelay, sfired, fpc, ffired, senderAlive, mTrunc,
                    mProcessed, mFailed, mPanicked, mRetry, taken, calls, fsnap, fret, fails>>
 
@@ -186,7 +191,7 @@ WhenEmpty(s) ==
     /\ spc' = [spc EXCEPT ![s] = "wait"]
     /\ Log(s, "WhenEmpty", [snap |-> Snap(pending, pendFlush, pendTake', isOpen, isInBatch),
                             immediate |-> pending = <<>>])
-    /\ UNCHANGED <<pending, pendFlush, isOpen, isInBatch, rpc, cur, curFlush, rem, retries,
+    /\ UNCHANGED <<pending, pendFlush, isOpen, isInBatch, rpc, cur, curFlush, rem, rcont, cbRest, retries,
                    retryDelay, idleDelay, sidx, sretry, fpc, ffired, senderAlive,
                    mTrunc, mBlocked, mProcessed, mFailed, mPanicked, mRetry,
                    accepted, status, taken, calls, fsnap, fret, sres, fails>>
@@ -203,7 +208,7 @@ SendWake(s) ==
        ELSE /\ spc' = [spc EXCEPT ![s] = "op"]
             /\ UNCHANGED <<sres, sretry, sidx>>
     /\ Log(s, "SendWake", [x |-> 0])
-    /\ UNCHANGED <<pending, pendFlush, pendTake, isOpen, isInBatch, rpc, cur, curFlush, rem,
+    /\ UNCHANGED <<pending, pendFlush, pendTake, isOpen, isInBatch, rpc, cur, curFlush, rem, rcont, cbRest,
                    retries, retryDelay, idleDelay, fpc, ffired, senderAlive,
                    mTrunc, mBlocked, mProcessed, mFailed, mPanicked, mRetry,
                    accepted, status, taken, calls, fsnap, fret, fails>>
@@ -219,8 +224,8 @@ WhenFlushed(f) ==
           /\ Log(f, "WhenFlushed", [snap |-> Snap(pending, pendFlush', pendTake, isOpen, isInBatch),
                                     immediate |-> imm])
     /\ fsnap' = [fsnap EXCEPT ![f] = SeqSet(accepted)]
-    /\ fpc' = [fpc EXCEPT ![f] = IF FlusherOps[f] = "cbPanic" THEN "done" ELSE "wait"]
-    /\ UNCHANGED <<pending, pendTake, isOpen, isInBatch, rpc, cur, curFlush, rem, retries,
+    /\ fpc' = [fpc EXCEPT ![f] = IF FlusherOps[f] \in {"cbPanic", "cbPark"} THEN "done" ELSE "wait"]
+    /\ UNCHANGED <<pending, pendTake, isOpen, isInBatch, rpc, cur, curFlush, rem, rcont, cbRest, retries,
                    retryDelay, idleDelay, spc, sidx, sretry, sfired, senderAlive,
                    mTrunc, mBlocked, mProcessed, mFailed, mPanicked, mRetry,
                    accepted, status, taken, calls, fret, sres, fails>>
@@ -228,11 +233,11 @@ WhenFlushed(f) ==
 \* blocking_flush returning: timeout 0 reports the flag as it is, no timeout waits for it
 FlushRet(f) ==
     /\ fpc[f] = "wait"
-    /\ FlusherOps[f] = "flushInf" => ffired[f] # "no"
+    /\ FlusherOps[f] \in {"flushInf", "flushTokio"} => ffired[f] # "no"
     /\ fret' = [fret EXCEPT ![f] = IF ffired[f] # "no" THEN "true" ELSE "false"]
     /\ fpc' = [fpc EXCEPT ![f] = "done"]
     /\ Log(f, "FlushRet", [ret |-> ffired[f] # "no"])
-    /\ UNCHANGED <<pending, pendFlush, pendTake, isOpen, isInBatch, rpc, cur, curFlush, rem,
+    /\ UNCHANGED <<pending, pendFlush, pendTake, isOpen, isInBatch, rpc, cur, curFlush, rem, rcont, cbRest,
                    retries, retryDelay, idleDelay, spc, sidx, sretry, sfired, ffired,
                    senderAlive, mTrunc, mBlocked, mProcessed, mFailed, mPanicked, mRetry,
                    accepted, status, taken, calls, fsnap, sres, fails>>
@@ -244,7 +249,7 @@ DropSender ==
     /\ \A f \in Flushers : fpc[f] = "done"
     /\ senderAlive' = FALSE /\ isOpen' = FALSE
     /\ Log("env", "DropSender", [snap |-> Snap(pending, pendFlush, pendTake, FALSE, isInBatch)])
-    /\ UNCHANGED <<pending, pendFlush, pendTake, isInBatch, rpc, cur, curFlush, rem, retries,
+    /\ UNCHANGED <<pending, pendFlush, pendTake, isInBatch, rpc, cur, curFlush, rem, rcont, cbRest, retries,
                    retryDelay, idleDelay, spc, sidx, sretry, sfired, fpc, ffired,
                    mTrunc, mBlocked, mProcessed, mFailed, mPanicked, mRetry,
                    accepted, status, taken, calls, fsnap, fret, sres, fails>>
@@ -252,8 +257,31 @@ DropSender ==
 -----------------------------------------------------------------------------
 (* Receiver side: Receiver::exec *)
 
-FireFlush(ff, ws) == [f \in Flushers |-> IF f \in SeqSet(ws) /\ ff[f] = "no" THEN "yes" ELSE ff[f]]
 FireTake(sf, ws) == [s \in Senders |-> IF s \in SeqSet(ws) THEN TRUE ELSE sf[s]]
+
+\* notify_on_flush runs the watchers in registration order on the receiver's thread.  A
+\* cbPark callback blocks there: the watchers up to and including it are notified, the rest
+\* wait until it returns.
+ParkAt(ws) == IF \E k \in 1..Len(ws) : FlusherOps[ws[k]] = "cbPark"
+              THEN CHOOSE k \in 1..Len(ws) : /\ FlusherOps[ws[k]] = "cbPark"
+                                              /\ \A j \in 1..(k - 1) : FlusherOps[ws[j]] # "cbPark"
+              ELSE 0
+Notified(ws) == IF ParkAt(ws) = 0 THEN ws ELSE SubSeq(ws, 1, ParkAt(ws))
+NotYet(ws) == IF ParkAt(ws) = 0 THEN <<>> ELSE SubSeq(ws, ParkAt(ws) + 1, Len(ws))
+FireFlush(ff, ws) == [f \in Flushers |-> IF f \in SeqSet(ws) /\ ff[f] = "no" THEN "yes" ELSE ff[f]]
+
+\* what the receiver does once all watchers of a hand-off have been notified
+\*   "lock": back to the top of the loop; "idle": sleep (wait is called now); "done": return
+Continue(to) ==
+    /\ rpc' = to
+    /\ idleDelay' = IF to = "idle" THEN IdleNext(idleDelay) ELSE idleDelay
+
+\* notify the watchers ws, then continue at `to` - or block inside a cbPark callback first
+NotifyThen(ws, to) ==
+    /\ ffired' = FireFlush(ffired, Notified(ws))
+    /\ IF ParkAt(ws) = 0
+       THEN /\ Continue(to) /\ rcont' = "" /\ cbRest' = <<>>
+       ELSE /\ rpc' = "inCb" /\ rcont' = to /\ cbRest' = NotYet(ws) /\ idleDelay' = idleDelay
 
 \* lock; swap the pending batch out (or take only the watchers); unlock; notify_on_take;
 \* then either call on_batch, or (empty hand-off) notify_on_flush and sleep / return.
@@ -269,27 +297,36 @@ RecvTake ==
             /\ retries' = 0 /\ retryDelay' = 0 /\ idleDelay' = 0
             /\ calls' = calls + 1
             /\ rpc' = "inflight"
-            /\ ffired' = ffired
+            /\ UNCHANGED <<ffired, rcont, cbRest>>
             /\ Log("recv", "RecvTake", [snap |-> Snap(<<>>, <<>>, <<>>, isOpen, TRUE),
                                         batch |-> pending, wait |-> 0])
        ELSE /\ isInBatch' = FALSE
             /\ cur' = <<>> /\ curFlush' = <<>>
-            /\ ffired' = FireFlush(ffired, pendFlush)
             /\ UNCHANGED <<status, taken, retries, retryDelay, calls>>
-            /\ IF isOpen THEN /\ rpc' = "idle" /\ idleDelay' = IdleNext(idleDelay)
-                         ELSE /\ rpc' = "done" /\ idleDelay' = idleDelay
+            /\ NotifyThen(pendFlush, IF isOpen THEN "idle" ELSE "done")
             /\ Log("recv", "RecvTake", [snap |-> Snap(<<>>, <<>>, <<>>, isOpen, FALSE),
-                                        batch |-> <<>>, wait |-> IF isOpen THEN idleDelay' ELSE 0])
+                                        batch |-> <<>>,
+                                        wait |-> IF rpc' = "idle" THEN idleDelay' ELSE 0])
     /\ UNCHANGED <<isOpen, rem, spc, sidx, sretry, fpc, senderAlive,
                    mTrunc, mBlocked, mProcessed, mFailed, mPanicked, mRetry,
                    accepted, fsnap, fret, sres, fails>>
+
+\* the callback the receiver is blocked in returns: the remaining watchers are notified
+CbReturn ==
+    /\ rpc = "inCb"
+    /\ NotifyThen(cbRest, rcont)
+    /\ Log("recv", "CbReturn", [wait |-> IF rpc' = "idle" THEN idleDelay' ELSE 0])
+    /\ UNCHANGED <<pending, pendFlush, pendTake, isOpen, isInBatch, cur, curFlush, rem, retries,
+                   retryDelay, spc, sidx, sretry, sfired, fpc, senderAlive,
+                   mTrunc, mBlocked, mProcessed, mFailed, mPanicked, mRetry,
+                   accepted, status, taken, calls, fsnap, fret, sres, fails>>
 
 IdleWake ==
     /\ rpc = "idle"
     /\ rpc' = "lock"
     /\ Log("recv", "IdleWake", [x |-> 0])
-    /\ UNCHANGED <<pending, pendFlush, pendTake, isOpen, isInBatch, cur, curFlush, rem, retries,
-                   retryDelay, idleDelay, spc, sidx, sretry, sfired, fpc, ffired, senderAlive,
+    /\ UNCHANGED <<pending, pendFlush, pendTake, isOpen, isInBatch, cur, curFlush, rem, rcont, cbRest,
+                   retries, retryDelay, idleDelay, spc, sidx, sretry, sfired, fpc, ffired, senderAlive,
                    mTrunc, mBlocked, mProcessed, mFailed, mPanicked, mRetry,
                    accepted, status, taken, calls, fsnap, fret, sres, fails>>
 
@@ -302,9 +339,8 @@ Remainders(q) == IF AnyRemainder THEN SubSeqs(q) ELSE SuffixesOf(q)
 
 FinishBatch ==   \* final attempt returned: everything in the batch is done; notify_on_flush
     /\ status' = SetStatus(status, SeqSet(cur), "done")
-    /\ ffired' = FireFlush(ffired, curFlush)
+    /\ NotifyThen(curFlush, "lock")
     /\ cur' = <<>> /\ curFlush' = <<>> /\ rem' = <<>>
-    /\ rpc' = "lock"
     /\ UNCHANGED <<retryDelay>>
 
 \* the future returned by on_batch resolves (or it, or the closure, panics)
@@ -335,13 +371,13 @@ AttemptEnd(outcome, r) ==
                                                 ELSE IF i \in SeqSet(cur) THEN "done"
                                                 ELSE status[i]]
                   /\ rpc' = "retryWait"
-                  /\ UNCHANGED <<cur, curFlush, ffired>>
+                  /\ UNCHANGED <<cur, curFlush, ffired, rcont, cbRest, idleDelay>>
              ELSE /\ retries' = IF r # <<>> THEN retries + 1 ELSE retries
                   /\ FinishBatch
     /\ Log("recv", "AttemptEnd", [outcome |-> outcome, rem |-> r,
                                   wait |-> IF rpc' = "retryWait" THEN retryDelay' ELSE 0,
                                   m |-> <<mProcessed', mFailed', mPanicked'>>])
-    /\ UNCHANGED <<pending, pendFlush, pendTake, isOpen, isInBatch, idleDelay, spc, sidx,
+    /\ UNCHANGED <<pending, pendFlush, pendTake, isOpen, isInBatch, spc, sidx,
                    sretry, sfired, fpc, senderAlive, mTrunc, mBlocked, mRetry,
                    accepted, taken, calls, fsnap, fret, sres>>
 
@@ -354,7 +390,7 @@ RetryWake ==
     /\ calls' = calls + 1
     /\ rpc' = "inflight"
     /\ Log("recv", "RetryWake", [batch |-> rem])
-    /\ UNCHANGED <<pending, pendFlush, pendTake, isOpen, isInBatch, curFlush, retries,
+    /\ UNCHANGED <<pending, pendFlush, pendTake, isOpen, isInBatch, curFlush, rcont, cbRest, retries,
                    retryDelay, idleDelay, spc, sidx, sretry, sfired, fpc, ffired, senderAlive,
                    mTrunc, mBlocked, mProcessed, mFailed, mPanicked,
                    accepted, taken, fsnap, fret, sres, fails>>
@@ -367,7 +403,7 @@ Kill ==
     /\ status' = SetStatus(status, SeqSet(cur) \cup SeqSet(rem), "orphan")
     /\ cur' = <<>> /\ rem' = <<>> /\ curFlush' = <<>>
     /\ Log("recv", "Kill", [snap |-> Snap(pending, pendFlush, pendTake, FALSE, isInBatch)])
-    /\ UNCHANGED <<pending, pendFlush, pendTake, isInBatch, retries, retryDelay, idleDelay,
+    /\ UNCHANGED <<pending, pendFlush, pendTake, isInBatch, rcont, cbRest, retries, retryDelay, idleDelay,
                    spc, sidx, sretry, sfired, fpc, ffired, senderAlive,
                    mTrunc, mBlocked, mProcessed, mFailed, mPanicked, mRetry,
                    accepted, taken, calls, fsnap, fret, sres, fails>>
@@ -375,7 +411,7 @@ Kill ==
 Outcomes == {"ok", "fail", "retry", "panic", "panicFut"}
 
 RecvNext ==
-    \/ RecvTake \/ IdleWake \/ RetryWake
+    \/ RecvTake \/ IdleWake \/ RetryWake \/ CbReturn
     \/ \E o \in Outcomes : \E r \in (IF o = "retry" THEN Remainders(cur) ELSE {<<>>}) :
           AttemptEnd(o, r)
 
@@ -397,7 +433,7 @@ FairSpec == Spec /\ WF_vars(RecvNext)
 (* Properties *)
 
 TypeOK ==
-    /\ rpc \in {"lock", "inflight", "retryWait", "idle", "done", "dead"}
+    /\ rpc \in {"lock", "inflight", "retryWait", "idle", "inCb", "done", "dead"}
     /\ retries \in 0..(MaxRetry + 1)
     /\ \A i \in Items : status[i] \in {"none", "pending", "inflight", "retrywait", "done",
                                         "trunc", "refused", "orphan"}
@@ -437,8 +473,10 @@ BackoffBounded == retryDelay <= 10000 /\ idleDelay <= 500
 CallbackOnce ==
     /\ \A f \in Flushers :
           Cardinality({k \in 1..Len(pendFlush) : pendFlush[k] = f})
-            + Cardinality({k \in 1..Len(curFlush) : curFlush[k] = f}) <= 1
-    /\ \A f \in Flushers : ffired[f] # "no" => f \notin SeqSet(pendFlush) \cup SeqSet(curFlush)
+            + Cardinality({k \in 1..Len(curFlush) : curFlush[k] = f})
+            + Cardinality({k \in 1..Len(cbRest) : cbRest[k] = f}) <= 1
+    /\ \A f \in Flushers : ffired[f] # "no" =>
+          f \notin SeqSet(pendFlush) \cup SeqSet(curFlush) \cup SeqSet(cbRest)
 \* Send is never disabled by the receiver's state (C09: the caller is never made to wait)
 SendNeverWaits ==
     \A s \in Senders : (senderAlive /\ spc[s] = "op" /\ Op(s) = "send") => ENABLED Send(s)
@@ -448,7 +486,7 @@ Alive == rpc # "dead"
 FlushLive == \A f \in Flushers : (fpc[f] = "wait") ~> (ffired[f] # "no" \/ ~Alive)
 Drain == (~senderAlive) ~> (rpc \in {"done", "dead"})
 DrainClean == [](rpc = "done" => /\ pending = <<>> /\ pendFlush = <<>> /\ pendTake = <<>>
-                                 /\ cur = <<>> /\ curFlush = <<>>)
+                                 /\ cur = <<>> /\ curFlush = <<>> /\ cbRest = <<>>)
 AllProcessed == \A i \in Items : (status[i] \in {"pending", "inflight", "retrywait"})
                                     ~> (status[i] \in {"done", "trunc", "orphan"})
 BlockedSenderWakes == \A s \in Senders : (spc[s] = "wait") ~> (spc[s] # "wait" \/ ~Alive)
